@@ -694,6 +694,14 @@ func c03Work(c *engine.Ctx) {
 		{"for(var x=y=>{a in b};;){}", "Stmt(for Decl(var Binding(x = (Params(Binding(y)) => Stmt({ Stmt(a in b) })))) ; ; Stmt({ }))", false},
 		{"for(var x=function(){a in b};;){}", "Stmt(for Decl(var Binding(x = Decl(function Params() Stmt({ Stmt(a in b) })))) ; ; Stmt({ }))", false},
 		{"for(;a in b;c in d){}", "Stmt(for ; (a in b) ; (c in d) Stmt({ }))", false},
+		{"for(var x=a?.[b in c];;){}", "Stmt(for Decl(var Binding(x = (a?.[(b in c)]))) ; ; Stmt({ }))", false},
+		{"for(var x=a?.(b in c);;){}", "Stmt(for Decl(var Binding(x = (a?.((b in c))))) ; ; Stmt({ }))", false},
+		{"for(var x=new A(b in c);;){}", "Stmt(for Decl(var Binding(x = (new A((b in c))))) ; ; Stmt({ }))", false},
+		{"for(var x=`${a in b}`;;){}", "Stmt(for Decl(var Binding(x = `${(a in b)}`)) ; ; Stmt({ }))", false},
+		{"for(var x=class{[a in b](){}};;){}", "Stmt(for Decl(var Binding(x = Decl(class Method([a in b] Params() Stmt({ }))))) ; ; Stmt({ }))", false},
+		{"for(var x={[a in b]:1};;){}", "Stmt(for Decl(var Binding(x = {[a in b]: 1})) ; ; Stmt({ }))", false},
+		{"for(var x=function(y=a in b){};;){}", "Stmt(for Decl(var Binding(x = Decl(function Params(Binding(y = (a in b))) Stmt({ })))) ; ; Stmt({ }))", false},
+		{"for(var x=(y=a in b)=>1;;){}", "Stmt(for Decl(var Binding(x = (Params(Binding(y = (a in b))) => Stmt({ Stmt(return 1) })))) ; ; Stmt({ }))", false},
 		{"for(var x=a in b;;){}", "", true},
 		{"for(x=a?b:c in d;;){}", "", true},
 		{"for(var x=y=>a in b;;){}", "", true},
